@@ -47,6 +47,14 @@ func rhAdjustRun(f int, maxItems []int, mode int) {
 //verif:expect-cover collision
 func H_C01_adjust2q() { rhAdjustRun(instance(), []int{1, 2}, 1) }
 
+// H_C01_adjust2qb: as adjust2q with the bounds swapped (<=2 items for the earlier plugin, so that
+// "earlier plugin removes and re-sets, later plugin sets plainly" is inside the quick bound).
+//verif:property C01
+//verif:instances 29
+//verif:tier quick
+//verif:expect-cover collision
+func H_C01_adjust2qb() { rhAdjustRun(instance(), []int{2, 1}, 1) }
+
 // H_C01_adjust2: two plugins, <=2 items each, every item family (instance = family).
 //verif:property C01
 //verif:instances 29
